@@ -185,6 +185,11 @@ func c09Roundtrip(a []string) string {
 }
 
 func c09DecMsg(a []string) string {
+	if c13Used(a) { // what an earlier decoding of the same bytes handed out is scribbled on first
+		if d0, err := llmnr.DecodeMessage(unhx(a[0])); err == nil {
+			scribble(d0)
+		}
+	}
 	d, err := llmnr.DecodeMessage(unhx(a[0]))
 	if err != nil {
 		return "err"
